@@ -27,6 +27,40 @@ func c20render(kind, host string, port *string) string {
 	return h
 }
 
+// c20viaAPI: the address the transport of a client made by NewClient (of a component made by NewComponent) will dial,
+// "" when the path does not apply (empty address: NewClient then falls back to the JID's domain and DNS).
+func c20viaAPI(component bool, addr string) string {
+	if addr == "" {
+		return ""
+	}
+	if component {
+		c, err := xmpp.NewComponent(xmpp.ComponentOptions{
+			TransportConfiguration: xmpp.TransportConfiguration{Address: addr, Domain: "comp.localhost"},
+			Domain:                 "comp.localhost", Secret: "s"}, xmpp.NewRouter(), func(error) {})
+		if err != nil || c == nil {
+			return "!refused-by-NewComponent"
+		}
+		// Resume builds the transport from the options the component holds
+		ct, err := xmpp.NewComponentTransport(c.ComponentOptions.TransportConfiguration)
+		if err != nil {
+			return "!not-xmpp"
+		}
+		if xt, ok := ct.(*xmpp.XMPPTransport); ok {
+			return xt.Config.Address
+		}
+		return "!not-xmpp"
+	}
+	cfg := xmpp.Config{TransportConfiguration: xmpp.TransportConfiguration{Address: addr}, Jid: "user@localhost", Credential: xmpp.Password("p")}
+	c, err := xmpp.NewClient(&cfg, xmpp.NewRouter(), func(error) {})
+	if err != nil || c == nil {
+		return "!refused-by-NewClient"
+	}
+	if xt, ok := xmpp.VerifTransport(c).(*xmpp.XMPPTransport); ok {
+		return xt.Config.Address
+	}
+	return "!not-xmpp"
+}
+
 func (c20) Exec(c Case) []string {
 	var obs []string
 	for _, op := range c.Ops {
@@ -60,6 +94,12 @@ func (c20) Exec(c Case) []string {
 				continue
 			}
 			out := xt.Config.Address
+			// the same address through the PUBLIC constructors (NewClient / NewComponent): what the application writes
+			// in its configuration must reach the transport constructor untouched
+			if api := c20viaAPI(op[0] == "cform", addr); api != "" && api != out {
+				obs = append(obs, "api:"+hx(api)+" constructor:"+hx(out))
+				continue
+			}
 			h, p, err := net.SplitHostPort(out)
 			if err != nil {
 				obs = append(obs, hx(out)+" err")
